@@ -15,7 +15,7 @@ DATA = os.path.join(VERIF, "data")
 
 
 # ------------------------------------------------------------------ R: families
-def run_family(ck, exe, fam, full, apply, workers=8):
+def run_family(ck, exe, fam, full, apply, workers=8, nested=False):
     cfg = os.path.join(ck.work, "Families_%s.cfg" % fam)
     with open(cfg, "w") as f:
         f.write('CONSTANTS Fam = "%s" Full = %s WithApply = %s\nINIT Init\nNEXT Next\nINVARIANT Emit\nCHECK_DEADLOCK FALSE\n'
@@ -29,20 +29,20 @@ def run_family(ck, exe, fam, full, apply, workers=8):
     with open(nd, "w") as f:
         f.write("\n".join(lines) + "\n")
     outp = os.path.join(ck.work, "fam_%s.res" % fam)
-    core.run_vh(exe, ["replay-legal", "--in", nd, "--out", outp], timeout=1800)
+    core.run_vh(exe, ["replay-legal", "--in", nd, "--out", outp] + (["--nested", 1] if nested else []), timeout=1800)
     recs = [json.loads(l) for l in open(outp)]
     summary = [r for r in recs if r.get("summary")][0]
     disc = [r for r in recs if not r.get("summary")]
     ck.add_states(res["generated"], res["distinct"])
-    return dict(fam=fam, positions=summary["positions"], nontrivial=summary["nontrivial"], applied=summary.get("applied", 0),
+    return dict(fam=fam, positions=summary["positions"], nontrivial=summary["nontrivial"], applied=summary.get("applied", 0), nested=summary.get("nested", 0),
                 disc=disc, sample=json.loads(lines[len(lines) // 2]))
 
 
-def families(ck, exe, fams, full, apply):
+def families(ck, exe, fams, full, apply, nested=False):
     # the families are independent TLC runs: run them side by side
     w = max(2, 16 // len(fams))
     with ThreadPoolExecutor(max_workers=len(fams)) as ex:
-        return list(ex.map(lambda f: run_family(ck, exe, f, full, apply, workers=w), fams))
+        return list(ex.map(lambda f: run_family(ck, exe, f, full, apply, workers=w, nested=nested), fams))
 
 
 # ------------------------------------------------------------------ T: traces
@@ -186,6 +186,10 @@ def c01(tier):
     games = 1200 if full else 96
     shards = trace(ck, exe, "games", "g", {"roots": roots, "games": games, "maxply": 90 if full else 70, "shards": 16 if not full else 48,
                                            "mv-pct": 0, "keys": 0, "repr": 0})
+    # positions REACHED by special moves (the generator reads rights / en-passant state left by do_move): promotion, castling and
+    # capture hungry games from roots where home rooks can be captured while the right is held
+    rk = write_roots_named(ck, ["roots_rookcap.fen"], "rookcap.fen")
+    shards += trace(ck, exe, "games", "k", {"roots": rk, "games": 400 if full else 64, "maxply": 12, "shards": 16, "mv-pct": 0, "keys": 0, "repr": 0, "policy": 4})
     viols, cnt = validate(ck, shards)
     need(cnt, ["legal_cmp", "n_ep", "n_check", "n_castle"], "C01 traces")
     take(ck, "C01", viols, others)
@@ -223,7 +227,7 @@ def c02(tier):
     exe = build.build("plain")
     full = tier == "thorough"
     others = {}
-    fam = families(ck, exe, ["F1", "F3", "F4", "F5"] + (["F6"] if full else []), full, True)
+    fam = families(ck, exe, ["F1", "F3", "F4", "F5", "F7"] + (["F6"] if full else []), full, True)
     applied = 0
     for f in fam:
         take(ck, "C02", f["disc"], others)
@@ -309,22 +313,25 @@ def c03(tier):
     full = tier == "thorough"
     others = {}
     roots = write_roots(ck, ["roots_general.fen", "roots_special.fen", "roots_lowmat.fen"])
-    shards = trace(ck, exe, "trees", "t", {"roots": roots, "units": 480 if full else 48, "depth": 5 if full else 4, "branch": 3,
+    shards = trace(ck, exe, "trees", "t", {"roots": roots, "units": 480 if full else 32, "depth": 5 if full else 4, "branch": 3,
                                            "shards": 48 if full else 16, "prefix": 40, "nulls-pct": 35, "eval": 1})
     shards += trace(ck, exe, "search-preserves", "s", {"roots": roots, "runs": 200 if full else 24, "shards": 16})
     viols, cnt = validate(ck, shards)
     need(cnt, ["undo_cmp", "undo", "undonull"], "C03 traces")
     take(ck, "C03", viols, others)
-    fam = families(ck, exe, ["F1", "F3", "F4", "F5"], False, True)     # do/undo of every legal move of the family positions
+    # make/unmake of every legal move of the family positions, and of every legal reply below it (two levels, complete)
+    fam = families(ck, exe, ["F3", "F4", "F5", "F8"] + (["F1"] if full else []), False, False, nested=True)
     for f in fam:
         take(ck, "C03", f["disc"], others)
-    ck.cov["evaluations"] = cnt["undo_cmp"] + sum(f["applied"] for f in fam)
+    ck.cov["nested_two_level_unmakes"] = sum(f["nested"] for f in fam)
+    ck.cov["evaluations"] = cnt["undo_cmp"] + sum(f["nested"] for f in fam)
     ck.cov["distinct_nontrivial"] = len(core.distinct_fens(shards))
     ck.cov["rule"] = ("every unmake (undo_move / undo_null_move) is followed by a full observation (FEN, key, pawn key, piece lists, bitboards, "
                       "repetition/draw answers, static evaluation, generated move set, history length) compared by the monitor with the observation "
                       "recorded before the matching make, in seeded random make/unmake trees (depth<=5, null moves interleaved) after random game "
                       "prefixes, plus real Search::go and perft runs whose root position is observed before and after; distinct_nontrivial = distinct "
-                      "positions observed in those trees; family positions add one make/unmake per legal move")
+                      "positions observed in those trees; on every position of families F1 F3 F4 F5 F8 (en passant, castling, promotions, home-rook captures, promotions "
+                      "next to like pieces that can be captured) every legal move and every legal reply below it is made and unmade with the full observation compared")
     ck.cov["monitor_counters"] = cnt
     ck.sample(dict(direction="code->spec", lines=[json.loads(l) for l in open(shards[0]).readlines()[:2]]))
     ck.assumptions += ["observations are compared with the engine's own earlier observation and the FEN with the specification's position",
@@ -384,6 +391,15 @@ def c07(tier):
                                             "mv-pct": 0, "keys": 0, "repr": 0, "policy": 2})
     shards += trace(ck, exe, "games", "q", {"roots": low, "games": 400 if full else 32, "maxply": 700 if full else 220, "shards": 16,
                                             "mv-pct": 0, "keys": 0, "repr": 0, "policy": 3})
+    # repetitions and fifty-move answers beyond the 800th ply (the history table is a ring of 800 entries): a legal long game
+    # as prefix (operations only), then shuffling play with full observations
+    for gi, plies in enumerate([790, 1585] + ([2390, 795, 3190] if full else [])):
+        gf = os.path.join(ck.work, "longprefix%d.txt" % gi)
+        core.run_vh(exe, ["long-game", "--plies", plies, "--out", gf, "--seed", core.seed() * 17 + gi])
+        start = os.path.join(ck.work, "startpos.fen")
+        open(start, "w").write("rnbqkbnr/pppppppp/8/8/8/8/PPPPPPPP/RNBQKBNR w KQkq - 0 1\n")
+        shards += trace(ck, exe, "games", "L%d" % gi, {"roots": start, "games": 6 if full else 3, "maxply": 60, "shards": 3, "mv-pct": 0, "keys": 0, "repr": 0,
+                                                      "policy": 2, "prefix": gf})
     clocks = write_roots_named(ck, ["roots_clock.fen"], "clock.fen")
     shards += trace(ck, exe, "games", "c", {"roots": clocks, "games": 300 if full else 48, "maxply": 40, "shards": 16,
                                             "mv-pct": 0, "keys": 0, "repr": 0, "policy": 6})
